@@ -414,7 +414,7 @@ func (b *Backend) validateConnectUnary(ct string) {
 	}
 	b.checkAccept("Accept-Encoding")
 	b.leftovers("Content-Encoding", "Connect-Timeout-Ms")
-	data, err := decompressWith(o.Comp, o.Body)
+	data, err := decompressBody(o.Comp, o.Body)
 	if err != nil {
 		o.bad("body does not match declared Content-Encoding %q: %v", o.Comp, err)
 		o.Msgs = append(o.Msgs, nil) // a handler honouring the declared encoding cannot read this message
@@ -507,7 +507,7 @@ func (b *Backend) validateREST(r *http.Request, ct string) {
 	}
 	b.checkAccept("Accept-Encoding")
 	b.leftovers("Content-Encoding", "X-Server-Timeout")
-	body, err := decompressWith(o.Comp, o.Body)
+	body, err := decompressBody(o.Comp, o.Body)
 	undecodable := false
 	if err != nil {
 		o.bad("REST body does not match declared Content-Encoding %q: %v", o.Comp, err)
@@ -896,7 +896,11 @@ func restResponseBody(bd *Binding, msg proto.Message) ([]byte, string, error) {
 	if fd == nil {
 		return nil, "", fmt.Errorf("no field %q", bd.RespBody)
 	}
-	return fieldJSON(m, fd)
+	data, ct, err := fieldJSON(m, fd)
+	if err == nil && data == nil && !isHTTPBodyMsg(fd.Message()) {
+		data = []byte("{}") // absent message field: a REST server answers with an empty object
+	}
+	return data, ct, err
 }
 
 func canonHeader(h http.Header) http.Header {
